@@ -7,7 +7,7 @@ from concurrent.futures import ThreadPoolExecutor
 ROOT = os.path.dirname(os.path.abspath(__file__))
 WORK = os.path.join(ROOT, ".work")
 COQ = os.path.join(ROOT, "coq")
-REPO = "/repo"
+REPO = os.environ.get("VERIF_REPO", "/repo")
 GOENV = dict(os.environ, GOFLAGS="-mod=mod", GOPROXY="off", GOSUMDB="off", GOTOOLCHAIN="local",
              GOCACHE=os.environ.get("GOCACHE", os.path.expanduser("~/.cache/go-build")))
 NCPU = os.cpu_count() or 4
@@ -154,6 +154,9 @@ def build_harness():
         for f in glob.glob(os.path.join(ROOT, "harness", "*.go")) + [os.path.join(ROOT, "harness", "go.mod")]:
             shutil.copy(f, bdir)
         shutil.copy(os.path.join(REPO, "go.sum"), os.path.join(bdir, "go.sum"))
+        gm = os.path.join(bdir, "go.mod")
+        txt = open(gm).read().replace("github.com/MichaelMure/git-bug => /repo", "github.com/MichaelMure/git-bug => " + REPO)
+        open(gm, "w").write(txt)
         binp = os.path.join(WORK, "bin", "harness")
         os.makedirs(os.path.dirname(binp), exist_ok=True)
         rc, out = sh(["timeout", "1200", "go", "build", "-tags", "verif", "-o", binp, "."], cwd=bdir, env=GOENV)
@@ -181,10 +184,12 @@ def read_jsonl(p):
 # ------------------------------------------------------------------ findings / evidence
 
 def load_findings():
-    p = os.path.join(ROOT, "known_findings.json")
-    if not os.path.exists(p):
-        return []
-    return json.load(open(p))["findings"]
+    """known_findings.json plus the per-property fragments findings/*.json (same format)."""
+    res = []
+    for p in [os.path.join(ROOT, "known_findings.json")] + sorted(glob.glob(os.path.join(ROOT, "findings", "*.json"))):
+        if os.path.exists(p):
+            res += json.load(open(p))["findings"]
+    return res
 
 
 def write_evidence(prop, ev):
